@@ -325,8 +325,8 @@ fn run_child_inner(ctx: &mut Ctx, child: &Child, subdir: bool) -> ChildResult {
     unsafe {
         let pid = ch.id() as libc::pid_t;
         let cpu = libc::rlimit {
-            rlim_cur: 30,
-            rlim_max: 30,
+            rlim_cur: ctx.cpu_limit,
+            rlim_max: ctx.cpu_limit,
         };
         libc::prlimit(pid, libc::RLIMIT_CPU, &cpu, std::ptr::null_mut());
         let mem = libc::rlimit {
